@@ -362,6 +362,15 @@ def r12_2b_named_ints(ctx):
                 attr = u(tgt.targets[0]) if isinstance(tgt, ast.Assign) else None
                 ctx.check(name in TL.NAMED_INTS, "R12.2", f"EnumInt({name!r})", f"EnumInt({name!r}) is not a named integer constant of the AVM", f"{fn.rel}:{node.lineno}", fact={"bound_to": attr})
     q.need(n >= 12, f"only {n} EnumInt literals found; the OnComplete and TxnType enumerations have 13")
+    # each public constant carries its own name: TxnType.AssetFreeze is `afrz`, not a neighbour's
+    want_attr = {"TxnType": {"Unknown": "unknown", "Payment": "pay", "KeyRegistration": "keyreg", "AssetConfig": "acfg", "AssetTransfer": "axfer", "AssetFreeze": "afrz", "ApplicationCall": "appl"},
+                 "OnComplete": {"NoOp": "NoOp", "OptIn": "OptIn", "CloseOut": "CloseOut", "ClearState": "ClearState", "UpdateApplication": "UpdateApplication", "DeleteApplication": "DeleteApplication"}}
+    for cname, table in want_attr.items():
+        c = ctx.model.find_class(cname)
+        for attr, lit in table.items():
+            node = c.class_attrs.get(attr)
+            got = node.args[0].value if isinstance(node, ast.Call) and u(node.func) == "EnumInt" and node.args and isinstance(node.args[0], ast.Constant) else (u(node) if node is not None else None)
+            ctx.check(got == lit, "R12.2", f"{cname}.{attr}", f"{cname}.{attr} is EnumInt({got!r}); it names the constant `{lit}` (= {TL.NAMED_INTS.get(lit)})", c.where, fact={"literal": got})
 
 
 class _IntSub(int):
